@@ -73,7 +73,7 @@ def run_tlc(module_path, cfg=None, workers=1, env=None, timeout=600, extra=(), h
     own = metadir is None
     if own:
         metadir = tempfile.mkdtemp(prefix="tlcmeta_")
-    cmd = ["java", "-XX:+UseParallelGC", "-Xmx" + heap, "-DTLA-Library=" + LIB + os.pathsep + d,
+    cmd = ["java", "-XX:+UseParallelGC", "-Xss512m", "-Xmx" + heap, "-DTLA-Library=" + LIB + os.pathsep + d,
            "-cp", JAR, "tlc2.TLC", "-workers", str(workers), "-metadir", metadir, "-noGenerateSpecTE",
            "-config", cfg]
     if not deadlock:
@@ -329,3 +329,52 @@ def setup_repo_import():
         sys.path.insert(0, REPO)
     import buidl  # noqa
     assert os.path.realpath(os.path.dirname(buidl.__file__)) == os.path.realpath(os.path.join(REPO, "buidl")), buidl.__file__
+
+
+# ---------------------------------------------------------------------- hash terms (DESIGN.md 2.3)
+import hashlib as _hl
+import hmac as _hm
+
+_FN = {1: "sha256", 2: "hash256", 3: "hash160", 4: "ripemd160", 5: "sha1", 8: "sha512",
+       20: "tag:TapSighash", 21: "tag:TapLeaf", 22: "tag:TapBranch", 23: "tag:TapTweak", 24: "tag:BIP0340/aux",
+       25: "tag:BIP0340/nonce", 26: "tag:BIP0340/challenge", 27: "tag:KeyAgg list", 28: "tag:KeyAgg coefficient",
+       29: "tag:MuSig/noncecoef"}
+
+
+def hash_prim(fn, data):
+    """the primitives of the trusted base; the harness knows primitives, not algorithms"""
+    if fn == "sha256":
+        return _hl.sha256(data).digest()
+    if fn == "hash256":
+        return _hl.sha256(_hl.sha256(data).digest()).digest()
+    if fn == "hash160":
+        return _hl.new("ripemd160", _hl.sha256(data).digest()).digest()
+    if fn == "ripemd160":
+        return _hl.new("ripemd160", data).digest()
+    if fn == "sha1":
+        return _hl.sha1(data).digest()
+    if fn == "sha512":
+        return _hl.sha512(data).digest()
+    if fn.startswith("tag:"):
+        t = _hl.sha256(fn[4:].encode()).digest()
+        return _hl.sha256(t + t + data).digest()
+    raise KeyError(fn)
+
+
+def eval_term(seq):
+    """Evaluate a byte-string term exported by TLC in which a hash application under the free-constructor oracle
+    appears as  -2, fnid, n, <n elements>  (specs/lib/HashOracle.tla)."""
+    out = bytearray()
+    i = 0
+    n = len(seq)
+    while i < n:
+        v = seq[i]
+        if v == -2:
+            fn = _FN[seq[i + 1]]
+            ln = seq[i + 2]
+            out += hash_prim(fn, eval_term(seq[i + 3:i + 3 + ln]))
+            i += 3 + ln
+        else:
+            out.append(v)
+            i += 1
+    return bytes(out)
